@@ -525,7 +525,9 @@ func (c *Ctx) ghostComp(env *CEnv, name string, ref string, sort string) string 
 		key := "sid|" + t
 		if !c.streamInv[key] && c.noName == 0 {
 			c.streamInv[key] = true
-			c.assume("true", fmt.Sprintf("(and (>= %s 1) (<= %s 4095))", t, t))
+			// (only for an actual reader object: a nil reader reference - e.g. the failed branch of a comma-ok type
+			// assertion - has no stream, and an unconditional fact about it would make that branch infeasible)
+			c.assume("true", fmt.Sprintf("(=> (not (= %s 0)) (and (>= %s 1) (<= %s 4095)))", ref, t, t))
 		}
 	}
 	if name == "peeked" || name == "bsize" {
